@@ -10,7 +10,7 @@ structure DState where
   world : Option IsoMdl.Session.World := none
   saved : Option IsoMdl.Session.World := none
 
-def stateless : List (List String → Option String) := [ageOp, ivOp, c13Op, c06Op]
+def stateless : List (List String → Option String) := [ageOp, ivOp, c13Op, c06Op, eqOp]
 
 def step (st : DState) (line : String) : DState × String :=
   let toks := (line.trimAscii.toString.splitOn " ").filter (· ≠ "")
